@@ -46,7 +46,7 @@ def _replay_is_deftypes(path):
 
 def run(ctx):
     ctx.extract()
-    mods = [m for m in ["GomlVerif.Props.C02", dce.PROP_MODULE, gocomp.PROP_MODULE, gopp.PROP_MODULE] if os.path.exists(os.path.join(vlib.LEAN, m.replace(".", "/") + ".lean"))]
+    mods = [m for m in ["GomlVerif.Props.C02", dce.PROP_MODULE, gocomp.PROP_MODULE, gopp.PROP_MODULE, gopp.LEX_MODULE] if os.path.exists(os.path.join(vlib.LEAN, m.replace(".", "/") + ".lean"))]
     ctx.build_lean(mods)
     if not ctx.build_harness():
         return ctx.finish("translation_validation", {"programs": 0, "disagreements_checked": 0, "samples": []}, [], "lake build")
